@@ -13,6 +13,7 @@ import ast
 from ..index import unparse
 from .. import query as Q
 from ..rules import escape as E
+from ..rules import escape2 as E2
 from . import c01, c02
 
 
@@ -21,22 +22,22 @@ def clean_paths(ctx):
     ctx.rule(R, 'the clean rule hands Path objects (escaped per context by '
              'the writer), not pre-rendered strings, to rm; it covers '
              'build_inputs.targets()')
-    repo = ctx.repo
-    f = repo.func('bfg9000.builtins.clean:make_clean_rule')
-    rm = [c for c in Q.calls(f.node) if unparse(c.func) == 'rm']
-    Q.require(len(rm) == 1, 'make_clean_rule: rm(...) call not found')
-    a = rm[0].args[0] if rm[0].args else None
-    ok = a is not None and isinstance(a, (ast.GeneratorExp, ast.ListComp)) \
-        and unparse(a.elt) == 'i.path' and \
-        unparse(a.generators[0].iter) == 'build_inputs.targets()' and \
-        not a.generators[0].ifs
-    ctx.ob(R, f.fq + '|rm(i.path for i in targets())', ok, rm[0],
+    from ..facts import Facts, direct, has, has_call
+    F = getattr(ctx, '_facts', None)
+    if F is None:
+        F = ctx._facts = Facts(ctx.repo)
+    f = F.fn('bfg9000.builtins.clean:make_clean_rule')
+    rm = [e for e in F.effects(f, lambda e: e.callee_is("tool('rm')"),
+                               depth=1)]
+    ok = bool(rm) and all(
+        has(e.all_args(), 'targets()', 'path') and not has_call(
+            e.all_args(), 'if') and not has(direct(e.all_args()),
+                                            'string()') for e in rm)
+    ctx.ob(R, f.fq + '|rm(i.path for i in targets())', ok, f.node,
            'clean does not pass the path objects of all targets to rm')
-    # directory sentinels are Paths appended to the parent directory
-    f = repo.func('bfg9000.backends.make.writer:directory_deps')
-    rets = Q.returns(f.node)
-    ok = len(rets) == 1 and 'i.append(dir_sentinel)' in unparse(
-        rets[0].value)
+    f = F.fn('bfg9000.backends.make.writer:directory_deps')
+    r = F.returns(f)
+    ok = any('append(' in a for a in r) and has(r, 'dir_sentinel')
     ctx.ob(R, f.fq + '|sentinel-is-path', ok, f.node,
            'directory sentinel is not a Path below the output directory')
 
@@ -57,18 +58,21 @@ def check(ctx):
         '(reader behaviour is taken from sa/tables.py)']
     table, members, sites = c01.make_sites(ctx)
     path_ctx = {'MK_TARGET', 'MK_PREREQ'}
-    E.esc_rule(ctx, 'ESC-MAKE', sites, table, only_contexts=path_ctx)
-    E.esc_rule(ctx, 'ESC-MAKE', sites, table,
-               only_contexts={'MK_VARVALUE'}, only_members={'clean'})
+    E2.esc_members(ctx, 'ESC-MAKE', E.MAKE_SYN, table, path_ctx)
+    E2.esc_members(ctx, 'ESC-MAKE', E.MAKE_SYN, table, {'MK_VARVALUE'},
+                   only_members={'clean'})
     c01.esc_make_extra(ctx, table)
-    E.position_rule(ctx, 'SYNTAX-POSITION',
-                    [s for s in sites if any(c in path_ctx for c in s[2])])
+    path_roles = [r for r in E2.MAKE_ROLES + E2.DEPFILE_ROLES
+                  if set(r[1]) & {'target', 'dependency'}]
+    E2.position_rule(ctx, 'SYNTAX-POSITION', sites, path_roles, 'make')
+    E2.phony_targets_as_prereqs(ctx, 'SYNTAX-POSITION', sites)
     ntable, nmembers, nsites = c02.ninja_sites(ctx)
-    E.esc_rule(ctx, 'ESC-NINJA', nsites, ntable, only_contexts={'NJ_PATH'})
-    E.position_rule(ctx, 'SYNTAX-POSITION',
-                    [s for s in nsites if 'NJ_PATH' in s[2]])
-    E.write_flow(ctx, E.MAKE_SYN, {'function', 'shell'})
-    E.write_flow(ctx, E.NINJA_SYN, {'shell'})
+    E2.esc_members(ctx, 'ESC-NINJA', E.NINJA_SYN, ntable, {'NJ_PATH'})
+    E2.position_rule(ctx, 'SYNTAX-POSITION', nsites, [
+        r for r in E2.NINJA_ROLES if set(r[1]) & {'output', 'input'}],
+        'ninja')
+    E2.write_flow(ctx, E.MAKE_SYN, {'function', 'shell'})
+    E2.write_flow(ctx, E.NINJA_SYN, {'shell'})
     clean_paths(ctx)
     # depfile post-processing keeps escaped characters of dependency names
     from . import c07
